@@ -298,10 +298,10 @@ def record_and_validate(rep, cols, nkeys, nvals, steps, seed, crash=0, label="",
     return res
 
 
-def record_mt_and_validate(rep, cols, nkeys, commits, seed, label="", readers=3, committers=2):
+def record_mt_and_validate(rep, cols, nkeys, commits, seed, label="", readers=3, committers=2, reads=600):
     out = os.path.join(vcore.scratch(), "tracemt_%s.ndjson" % label)
     args = {"out": out, "cols": json.dumps(cols), "nkeys": nkeys, "commits": commits, "seed": seed,
-            "readers": readers, "committers": committers}
+            "readers": readers, "committers": committers, "reads": reads}
     p = vcore.pdbh("pdb-record-mt", args)
     summary = json.loads(p.stdout.strip().splitlines()[-1])
     for pr in summary.get("problems", []):
@@ -312,3 +312,166 @@ def record_mt_and_validate(rep, cols, nkeys, commits, seed, label="", readers=3,
     log("[trace-mt] %s cols=%s: %d events, matched %s/%s" % (label, model_kinds(cols), summary.get("events", 0),
                                                               res.get("matched"), res.get("total")))
     return res
+
+
+# ---------------------------------------------------------------------------
+# C02 / C03: crash recovery, clean shutdown
+
+CRASH_INV = ("TypeOK", "ReadLatest", "RecoveredIsPrefix", "SyncedSurvive", "DrainedIsAll")
+CRASH_COLS = [
+    [{"kind": "hash"}, {"kind": "rc"}],
+    [{"kind": "hash", "uniform": True}, {"kind": "btree"}],
+    [{"kind": "rc", "comp": "lz4", "threshold": 0}, {"kind": "hash", "comp": "snappy"}],
+    [{"kind": "btree"}, {"kind": "btree_rc"}],
+]
+
+
+def crash_models(rep, thorough, prefix):
+    kw = dict(kind="hr", nkeys=1, nvals=1, maxcalls=2, maxops=2, maxcrash=2, fine=True,
+              feat=("crash", "crashrec", "restart"), view="ViewNoTrace", invariants=CRASH_INV)
+    run_model(rep, pdb_cfg(**kw), prefix + "(hr,2 calls,2 crashes)")
+    # a log truncated before it is fully enacted loses a commit in the middle of the history
+    k2 = dict(kw, maxcrash=1, mut=("truncate_any",))
+    run_model(rep, pdb_cfg(**k2), prefix + "_noguard_truncate_any", expect=True)
+    if thorough:
+        kw2 = dict(kw, kind="h", nkeys=2)
+        run_model(rep, pdb_cfg(**kw2), prefix + "(h,2 keys,2 calls,2 crashes)", timeout=3000)
+
+
+@check("C02")
+def c02(tier):
+    rep = Report("C02", tier)
+    rep.rule = ("TLC: crash enabled in every state (mid-record apply, torn append, during recovery), <=2 crashes; "
+                "behaviours with crashes generated by TLC and replayed: a copy of the database directory is taken at the "
+                "crash step AND at every hook event inside every pipeline step (file-operation boundaries and table "
+                "stores), each image is opened with the real code and must equal the state after a prefix of the committed "
+                "transactions (all columns at once) not shorter than the synced prefix; recorded random histories with "
+                "crashes inside pipeline bursts are validated by TLC; non-trivial = crash/restart with a non-empty "
+                "pipeline or two stages occupied")
+    rep.assumptions = ["a process crash preserves every completed write(2) and every MAP_SHARED store (page cache)",
+                       "crash instants are the hook events and step boundaries, not arbitrary machine instructions"]
+    vcore.build_harness()
+    thorough = tier == "thorough"
+    crash_models(rep, thorough, "MC_C02")
+    num = 120 if thorough else 14
+    for i, cols in enumerate(CRASH_COLS if thorough else CRASH_COLS[:3]):
+        gen_and_replay(rep, cols, dict(feat=("crash", "restart", "reject"), maxops=3, maxcrash=3,
+                                       invariants=("ReadLatest", "RecoveredIsPrefix", "SyncedSurvive")),
+                       num, 34, SEED + 7 + i * 13, 2, 2, inner_images=40, small=(i % 2 == 1), label="c02_%d" % i)
+    ntr = 8 if thorough else 2
+    for j in range(ntr):
+        cols = CRASH_COLS[j % len(CRASH_COLS)]
+        record_and_validate(rep, cols, 10, 4, 700 if thorough else 300, SEED * 977 + j, crash=5, label="c02t%d" % j,
+                            small=(j % 2 == 0))
+    return rep.finish()
+
+
+@check("C03")
+def c03(tier):
+    rep = Report("C03", tier)
+    rep.rule = ("TLC: clean close enabled in every reachable pipeline state, crash after every sync; behaviours ending in "
+                "close+reopen from every kind of pipeline state replayed (stepping mode) and threaded runs dropped "
+                "immediately after the last commit; the trace spec requires at close that the queue is drained and every "
+                "record sits in a synced file, and after reopen every read shows the full history; crash images must contain "
+                "every commit whose log file had been fdatasync'ed (lower bound from the model's `durable`)")
+    rep.assumptions = ["sync_wal = sync_data = true", "fdatasync makes the log file durable"]
+    vcore.build_harness()
+    thorough = tier == "thorough"
+    crash_models(rep, thorough, "MC_C03")
+    num = 200 if thorough else 30
+    for i, cols in enumerate(CRASH_COLS[:2] if not thorough else CRASH_COLS):
+        gen_and_replay(rep, cols, dict(feat=("restart", "crash"), maxops=3, maxcrash=2,
+                                       invariants=("ReadLatest", "RecoveredIsPrefix", "SyncedSurvive", "DrainedIsAll")),
+                       num, 30, SEED + 31 + i * 17, 2, 2, inner_images=0, small=True, label="c03_%d" % i)
+    ntr = 6 if thorough else 2
+    for j in range(ntr):
+        record_and_validate(rep, CRASH_COLS[j % 2], 10, 4, 500 if thorough else 250, SEED * 613 + j, crash=3,
+                            label="c03t%d" % j, small=True)
+    nmt = 8 if thorough else 2
+    for j in range(nmt):
+        record_mt_and_validate(rep, [{"kind": "hash"}, {"kind": "hash", "uniform": True}], 8,
+                               150 if thorough else 60, SEED * 211 + j, label="c03mt%d" % j)
+    return rep.finish()
+
+
+# ---------------------------------------------------------------------------
+# C07: reference counting
+
+RC_COLS = [
+    [{"kind": "rc"}, {"kind": "rc", "uniform": True}],
+    [{"kind": "rc", "comp": "lz4", "threshold": 0}, {"kind": "hash"}],
+    [{"kind": "btree_rc"}, {"kind": "rc"}],
+]
+
+
+@check("C07")
+def c07(tier):
+    rep = Report("C07", tier)
+    rep.rule = ("TLC: all histories of set/reference/dereference over rc columns x stage schedules x restarts/crashes; "
+                "invariant: count>0 => readable with its value, and once everything is logged readable <=> count>0; "
+                "behaviours replayed with value=f(key); when the pipeline is drained value iteration must report exactly "
+                "the model's counts; recorded traces validated by TLC (Obs and Counts events)")
+    rep.assumptions = ["values of rc columns are a function of the key (preimage)"]
+    vcore.build_harness()
+    thorough = tier == "thorough"
+    kw = dict(kind="rr", nkeys=1, nvals=1, maxcalls=3 if thorough else 2, maxops=2, maxcrash=1, fine=True,
+              feat=("crash", "restart"), view="ViewNoTrace", invariants=CRASH_INV + ("LayerHandOver",))
+    run_model(rep, pdb_cfg(**kw), "MC_C07(rr,%d calls)" % kw["maxcalls"], timeout=3000)
+    kw1 = dict(kind="r", nkeys=2, nvals=1, maxcalls=3, maxops=2 if thorough else 1, fine=True, feat=("restart",),
+               view="ViewLogical", invariants=("TypeOK", "ReadLatest", "DrainedIsAll"))
+    run_model(rep, pdb_cfg(**kw1), "MC_C07(r,2 keys,3 calls)", timeout=3000)
+    num = 300 if thorough else 50
+    for i, cols in enumerate(RC_COLS):
+        gen_and_replay(rep, cols, dict(feat=("restart", "reject", "crash"), maxops=3, maxcrash=2,
+                                       invariants=("ReadLatest", "RecoveredIsPrefix")),
+                       num, 32, SEED + 3 + i * 29, 2, 2, small=(i == 0), label="c07_%d" % i)
+    ntr = 6 if thorough else 2
+    for j in range(ntr):
+        record_and_validate(rep, RC_COLS[j % len(RC_COLS)], 8, 3, 800 if thorough else 300, SEED * 389 + j,
+                            crash=2, label="c07t%d" % j, small=(j % 2 == 1))
+    return rep.finish()
+
+
+# ---------------------------------------------------------------------------
+# C08: rejected transactions
+
+C08_COLS = [
+    [{"kind": "hash"}, {"kind": "rc"}],
+    [{"kind": "btree"}, {"kind": "hash", "uniform": True}],
+    [{"kind": "hash", "uniform": True, "preimage": True}, {"kind": "btree_rc"}],
+]
+
+
+@check("C08")
+def c08(tier):
+    rep = Report("C08", tier)
+    rep.rule = ("TLC: Reject (invalid operation at any position among valid ones, or any commit in the background-error "
+                "state) leaves every variable unchanged, followed by any commits/stages/restarts with ReadLatest checked; "
+                "behaviours with rejected calls replayed: after a rejected call every read, the number of value entries of "
+                "every hash column and the sizes of queue/overlay must equal those before it, immediately, after draining "
+                "and after reopen; non-trivial = a rejected call with a non-empty pipeline")
+    rep.assumptions = ["invalid operations modelled: Reference on a column without counting; any commit after a background error",
+                       "tree-specific rejections are covered by C10's module"]
+    vcore.build_harness()
+    thorough = tier == "thorough"
+    kw = dict(kind="hr", nkeys=1, nvals=1, maxcalls=3, maxops=2, maxcrash=0, fine=True,
+              feat=("reject", "restart", "iofail"), view="ViewLogical", invariants=("TypeOK", "ReadLatest", "DrainedIsAll"))
+    run_model(rep, pdb_cfg(**kw), "MC_C08(hr,3 calls)", timeout=3000)
+    num = 300 if thorough else 50
+    for i, cols in enumerate(C08_COLS):
+        behs, results = gen_and_replay(rep, cols, dict(feat=("restart", "reject"), maxops=3), num, 30,
+                                       SEED + 11 + i * 37, 2, 2, small=(i != 1), label="c08_%d" % i)
+        nrej = sum(1 for b in behs for e in b if e.get("a") == "Commit" and not e.get("ok"))
+        rep.extra["rejected_calls_replayed"] = rep.extra.get("rejected_calls_replayed", 0) + nrej
+        if nrej == 0:
+            raise ToolError("no rejected call generated: vacuous")
+    # background-error state: store_err, then every commit must be refused and leave no trace
+    for i, cols in enumerate(C08_COLS[:2]):
+        gen_and_replay(rep, cols, dict(feat=("restart", "reject", "iofail", "crash"), maxops=2, maxcrash=2,
+                                       invariants=("ReadLatest", "RecoveredIsPrefix")),
+                       num // 2, 26, SEED + 501 + i, 2, 2, small=True, label="c08e_%d" % i)
+    ntr = 4 if thorough else 1
+    for j in range(ntr):
+        record_and_validate(rep, C08_COLS[j % len(C08_COLS)], 8, 3, 500 if thorough else 300, SEED * 151 + j,
+                            label="c08t%d" % j, small=True)
+    return rep.finish()
